@@ -991,7 +991,59 @@ func c04ChildSection(w *World, r *Report) {
 	r.Rule("C04/CHILD-SECTION", "the test whether a values key is a subchart's section answers anything but a constant true only after scanning the parent's loaded dependencies", 1)
 	fn := w.Fn("pkg/chart/v2/util", "childChartMergeTrue")
 	if fn == nil {
-		r.Unk("C04/CHILD-SECTION", "anchor", "-", "childChartMergeTrue not found")
+		// the predicate was folded into its caller: the merge flag handed to the key-by-key overlay for a
+		// nested table must still be computed from a scan of the loaded dependencies
+		cv := w.Fn("pkg/chart/v2/util", "coalesceValues")
+		ctfk := w.Fn("pkg/chart/v2/util", "coalesceTablesFullKey")
+		if cv == nil || ctfk == nil {
+			r.Unk("C04/CHILD-SECTION", "anchor", "-", "neither childChartMergeTrue nor coalesceValues/coalesceTablesFullKey found")
+			return
+		}
+		r.Fn(FuncName(cv))
+		n := 0
+		for _, f := range withAnon(cv) {
+			for _, c := range callInstrs(f) {
+				if cf, _ := calleeOf(c.Common()); cf == nil || origin(cf) != ctfk {
+					continue
+				}
+				for _, a := range c.Common().Args {
+					if !isBoolType(a.Type()) {
+						continue
+					}
+					n++
+					scans := false
+					var conds []ssa.Value
+					visit := func(x ssa.Value) bool {
+						if cc, ok := x.(*ssa.Call); ok {
+							if g, _ := calleeOf(cc.Common()); g != nil && FuncName(g) == "(*pkg/chart/v2.Chart).Dependencies" {
+								scans = true
+							}
+						}
+						if phi, ok := x.(*ssa.Phi); ok {
+							// a || b: the value also depends on the condition that selected the incoming edge
+							for _, pb := range phi.Block().Preds {
+								for b, d := pb, 0; b != nil && d < 3; b, d = b.Idom(), d+1 {
+									if len(b.Instrs) > 0 {
+										if ifi, ok := b.Instrs[len(b.Instrs)-1].(*ssa.If); ok {
+											conds = append(conds, ifi.Cond)
+										}
+									}
+								}
+							}
+						}
+						return false
+					}
+					backSlice(a, visit)
+					for i := 0; i < len(conds) && i < 16; i++ {
+						backSlice(conds[i], visit)
+					}
+					r.Check(scans, "C04/CHILD-SECTION", fmt.Sprintf("inline#%d", n), w.InstrPos(c), "the merge flag of the nested overlay is computed from a scan of the loaded dependencies", "the merge flag handed to the nested overlay does not depend on the loaded dependencies (Chart.Dependencies()): a subchart's section is merged like plain values and nulls in it are consumed one level too early")
+				}
+			}
+		}
+		if n == 0 {
+			r.Unk("C04/CHILD-SECTION", "anchor", "-", "childChartMergeTrue not found and coalesceValues makes no nested overlay call")
+		}
 		return
 	}
 	r.Fn(FuncName(fn))
